@@ -67,6 +67,7 @@ def run(ctx):
                 ctx.ob("C26.R2", site, "`%s` is evaluated with Python `%s`" % (o, PYOP[o]), PYOP[o] in used and not (used - {PYOP[o]}), construct="sem:" + o, node=fe, detail="%r uses %s" % (d, sorted(used)))
     # R3 - grouping, decided on the operator table itself
     _grouping(ctx)
+    _raw_arguments(ctx)
     # R4
     pe = ctx.fn(F, "CPreProcessor.parse_expression")
     for c in calls_in(pe, "cnum"):
@@ -225,3 +226,37 @@ def _grouping(ctx):
     cont = [n for n in ast.walk(loop) if isinstance(n, ast.Call) and norm(n.func) == "self._binop_take"]
     ok = len(cont) == 1 and [norm(a) for a in cont[0].args] == ["op", "priority"]
     ctx.ob("C26.R3", site, "the loop asks _binop_take about the next operator with the priority this parse was started with", ok, construct="loop-uses-own-priority")
+
+
+def _raw_arguments(ctx):
+    """R7: C11 6.10.3.1 - a parameter that is an operand of # or ## is replaced by the argument's tokens AS WRITTEN;
+    every other occurrence by the completely macro-expanded argument.  One map (parameter -> argument tokens) feeds
+    both kinds of use, so it has to keep the raw tokens for the whole substitution."""
+    from ..sym import conjuncts
+    ctx.rule("C26.R7", "substitute_arguments: the parameter map keeps the raw argument tokens throughout (built once before the scan, never written inside it); # and ## operands read it directly, ordinary uses expand a copy", floor=4)
+    fn = ctx.fn(F, "CPreProcessor.substitute_arguments")
+    site = F + ":CPreProcessor.substitute_arguments"
+    loops = [l for l in fn.body if isinstance(l, ast.While)]
+    ctx.need(len(loops) == 1, "substitute_arguments: scan loop not found")
+    loop = loops[0]
+    maps = [n for n in fn.body if isinstance(n, ast.Assign) and isinstance(n.value, ast.Call) and norm(n.value.func) == "dict" and "zip(" in norm(n.value)]
+    ctx.need(len(maps) == 1, "substitute_arguments: parameter map not found")
+    mp = norm(maps[0].targets[0])
+    writes = [n for n in ast.walk(loop) if (isinstance(n, (ast.Assign, ast.AugAssign)) and any(isinstance(t, ast.Subscript) and norm(t.value) == mp for t in (n.targets if isinstance(n, ast.Assign) else [n.target])))
+              or (isinstance(n, ast.Call) and isinstance(n.func, ast.Attribute) and norm(n.func.value) == mp and n.func.attr in ("update", "setdefault", "pop", "clear", "__setitem__"))]
+    ctx.ob("C26.R7", site, "the map is not written while the replacement list is scanned (an expanded argument stored back would later be stringified or pasted instead of the argument as written)", not writes, construct="map-stays-raw",
+           node=writes[0] if writes else None, detail="; ".join(" ".join(norm(w).split())[:70] for w in writes))
+    st = [c for c in ast.walk(loop) if isinstance(c, ast.Call) and norm(c.func) == "self.stringify"]
+    ok = len(st) == 1 and any(norm(a).startswith(mp + "[") for a in st[0].args)
+    ctx.ob("C26.R7", site, "# stringifies the map entry itself", ok, construct="stringify-raw", detail=norm(st[0])[:80] if st else "")
+    ex = [c for c in ast.walk(loop) if isinstance(c, ast.Call) and norm(c.func) == "self.expand_token_sequence"]
+    ok = len(ex) == 1
+    if ok:
+        conds = [(" ".join(norm(c).split()), pol) for c, pol in conjuncts(ex[0], fn, {})]
+        ok = any(pol is False and "##" in c for c, pol in conds) or any(pol is True and c.startswith("not ") and "##" in c for c, pol in conds) or any(c == "used_in_concat" and pol is False for c, pol in conds)
+        asg = ex[0]._parent
+        ok = ok and isinstance(asg, ast.Assign) and isinstance(asg.targets[0], ast.Name) and norm(asg.targets[0]) != mp
+    ctx.ob("C26.R7", site, "an ordinary use expands the argument into a local, only when the parameter is not next to ##", ok, construct="expand-unless-pasted")
+    cat = [n for n in ast.walk(loop) if isinstance(n, ast.Assign) and isinstance(n.targets[0], ast.Name) and "##" in norm(n.value)]
+    ok = len(cat) == 1 and "previous" in norm(cat[0].value) and "peak" in norm(cat[0].value)
+    ctx.ob("C26.R7", site, "a parameter counts as a ## operand when ## precedes or follows it", ok, construct="paste-both-sides", detail=norm(cat[0].value) if cat else "")
